@@ -81,9 +81,14 @@ PARENTS = Union(NoneT(),
                 Record('pycel.excelformula:FunctionNode', {'token': TOKEN(Const('SUM('), 'FUNC')}))
 
 
-def NODE(op_values, typ, nchildren):
+def OPCHILD():
+    """an operand that is itself an operator node (its emitted text is all that matters)"""
+    return Record(OPNODE, {'emit': Str(maxlen=4)})
+
+
+def NODE(op_values, typ, nchildren, child=None):
     return Record(OPNODE, {'token': TOKEN(Union(*[Const(v) for v in op_values]), typ),
-                           '_children': Tuple(*[CHILD() for _ in range(nchildren)], kind='list'),
+                           '_children': Tuple(*[(child or CHILD)() for _ in range(nchildren)], kind='list'),
                            '_parent': PARENTS, '_ast': AnyObj()})
 
 
@@ -95,6 +100,8 @@ CONTRACTS = [
              params=dict(self=NODE(('%',), 'OPERATOR-POSTFIX', 1)), ensures=[percent_emits_division]),
     Contract(OPNODE + '.emit@getter', 'C02', name='OperatorNode.emit[sign]',
              params=dict(self=NODE(('-', '+'), 'OPERATOR-PREFIX', 1)), ensures=[prefix_emits_sign]),
+    Contract(OPNODE + '.emit@getter', 'C02', name='OperatorNode.emit[sign of an operator expression]',
+             params=dict(self=NODE(('-', '+'), 'OPERATOR-PREFIX', 1, child=OPCHILD)), ensures=[prefix_emits_sign]),
 ]
 LEMMAS = [
     Lemma('precedence_table_is_the_grammar', 'C02',
